@@ -169,6 +169,12 @@ Definition resolve_ref (classes : list cls) (root : node) (b : builtins) (r : re
     end
   end.
 
+(* several loaded models (the main model and the models it imports): PlainName searches get_model(obj), the
+   model that contains the referring object, and nothing else *)
+Definition empty_model : node := Node 0 NoName [].
+Definition resolve_in (classes : list cls) (world : list node) (i : nat) (b : builtins) (r : ref) : outcome :=
+  resolve_ref classes (nth i world empty_model) b r.
+
 Definition is_error (o : outcome) : bool :=
   match o with Resolved _ | Builtin _ => false | _ => true end.
 
